@@ -1,0 +1,46 @@
+//go:build verif
+
+package client
+
+// Contracts for the verification machinery in /verif (comment-only; never compiled without -tags verif).
+//
+// C19: the packaged primitives are thin parameterisations of the server's LOCK command. The server admits a
+// request while the key's hold total is at most the Count of the request and of the oldest holder (C01,
+// contract of LockDB.doLock), and lets one LockId hold a key Rcount+1 times (C02). Each primitive therefore
+// has to send exactly the Count / Rcount that turns that rule into its textbook guarantee; the lemmas at the
+// end of the server contract file state the guarantee each value yields.
+
+//@ func NewLock
+//@   ensures C19.lock.exclusive: result != nil && result.count == 0 && result.rcount == 0 && result.lockKey == lockKey && result.timeout == timeout && result.expried == expried
+//@ func NewRLock
+//@   ensures C19.rlock.reentrant: result != nil && result.lock != nil && result.lock.count == 0 && result.lock.rcount == 0xff && result.lock.lockKey == lockKey
+//@ func NewSemaphore
+//@   ensures C19.semaphore.count: result != nil && result.count == ite(count > 0, count - 1, 0) && result.semaphoreKey == semaphoreKey
+//@ func (*Semaphore).Acquire
+//@   requires self != nil
+//@   at call Lock.Lock assert C19.semaphore.acquire: arg0.count == self.count && arg0.rcount == 0 && arg0.lockKey == self.semaphoreKey
+//@   modifies all
+//@ func NewMaxConcurrentFlow
+//@   ensures C19.flow.count: result != nil && result.count == ite(count > 0, count - 1, 0) && result.flowKey == flowKey
+//@ func (*RWLock).RLock
+//@   requires self != nil
+//@   at call Lock.Lock assert C19.rwlock.reader: arg0.count == 0xffff && arg0.rcount == 0 && arg0.lockKey == self.lockKey
+//@   modifies all
+//@ func (*RWLock).Lock
+//@   requires self != nil
+//@   at call Lock.Lock assert C19.rwlock.writer: implies(old(self.wlock) == nil, arg0.count == 0 && arg0.rcount == 0 && arg0.lockKey == self.lockKey)
+//@   modifies all
+
+// what goes on the wire for a Lock object: its Count and Rcount, unchanged
+//@ func (*Lock).Lock
+//@   requires self != nil
+//@   at call doLock assert C19.wire.lock: arg2 == self.lockId && arg5 == self.count && arg6 == self.rcount
+//@   modifies all
+//@ func (*Lock).doLock
+//@   requires self != nil
+//@   at call executeCommand assert C19.wire.command: ref(arg1) != 0 && command.Count == count && command.Rcount == rcount && command.LockId == lockId && command.LockKey == self.lockKey && command.CommandType == protocol.COMMAND_LOCK && command.Timeout == u16(timeout) && command.TimeoutFlag == u16(timeout >> 16) && command.Expried == u16(expried) && command.ExpriedFlag == u16(expried >> 16)
+//@   modifies all
+//@ func (*Lock).doUnlock
+//@   requires self != nil
+//@   at call executeCommand assert C19.wire.uncommand: command.Count == count && command.Rcount == rcount && command.LockId == lockId && command.LockKey == self.lockKey && command.CommandType == protocol.COMMAND_UNLOCK
+//@   modifies all
